@@ -6,13 +6,19 @@ import (
 )
 
 //verif:pkg ./xsync
-// args: waiters k, signals m (0 = one Broadcast), signaller holds L (0/1), cancel one waiter (0 no,
+// args: waiters k, signals m (0 = one Broadcast; 10+s = s Signals followed by one Broadcast), signaller holds L (0/1), cancel one waiter (0 no,
 //       1 at an arbitrary moment after it entered Wait, 2 its context has expired before it calls Wait),
-//       a Broadcast (and a Signal) with nobody waiting happened earlier (0/1)
+//       a Broadcast (and a Signal) with nobody waiting happened earlier (0/1); 2: nothing happened earlier,
+//       but the signaller starts as soon as ONE waiter is inside Wait (the others may arrive during or
+//       after the signals): then at least one waiter must wake
 //verif:case C16 quick VerifCondWakeups 1..2 0..2 0..1 0 0
 //verif:case C16 quick VerifCondWakeups 1..2 0..1 0 1 0
 //verif:case C16 quick VerifCondWakeups 1 0..1 0 0 1
 //verif:case C16 quick VerifCondWakeups 1..2 0..1 0 2 0
+//verif:case C16 quick VerifCondWakeups 1..2 11..12 0..1 0 0
+//verif:case C16 quick VerifCondWakeups 2 0..1 0..1 0 2
+//verif:case C16 thorough VerifCondWakeups 3 0..1 0 0 2
+//verif:case C16 thorough VerifCondWakeups 3 11..12 0 0 0
 //verif:case C16 thorough VerifCondWakeups 3 0..3 0..1 0 0
 //verif:case C16 thorough VerifCondWakeups 2 2..3 0..1 0..1 0
 //verif:case C16 thorough VerifCondWakeups 3 1 0 1 0
@@ -105,7 +111,13 @@ func VerifCondWakeups(k int, m int, holdL int, cancelOne int, earlier int) {
 			}
 		}()
 	}
+	if earlier == 2 {
+		vAwait(func() bool { return L.entered() >= 1 })
+	}
 	vAwait(func() bool {
+		if earlier == 2 {
+			return true
+		}
 		// every waiter has released the lock inside Wait (a waiter whose context had expired and
 		// that came back with the error without ever releasing the lock is caught below)
 		for i := 0; i < k; i++ {
@@ -122,12 +134,16 @@ func VerifCondWakeups(k int, m int, holdL int, cancelOne int, earlier int) {
 	if holdL == 1 {
 		L.Lock()
 	}
-	if m == 0 {
+	thenBroadcast := m >= 10
+	if thenBroadcast {
+		m -= 10
+	}
+	for s := 0; s < m; s++ {
+		c.Signal()
+	}
+	if m == 0 || thenBroadcast {
 		c.Broadcast()
-	} else {
-		for s := 0; s < m; s++ {
-			c.Signal()
-		}
+		m = 0 // everybody must wake
 	}
 	if holdL == 1 {
 		L.mu.Unlock()
@@ -146,6 +162,9 @@ func VerifCondWakeups(k int, m int, holdL int, cancelOne int, earlier int) {
 	want := m
 	if m == 0 || m > k {
 		want = k
+	}
+	if earlier == 2 {
+		want = 1 // only the waiters already inside Wait are owed a wakeup: at least one was
 	}
 	if cancelOne == 0 {
 		vAssert(nWoke >= want, "signal/wakes-at-least-min-k-m")
